@@ -26,8 +26,14 @@ void vf_lock_contended_slow(const char* func);
 
 #define vfa_load_explicit(p,mo) __extension__({ \
   __typeof__(p) _vf_p = (p); VF_POINT(VF_K_LOAD,_vf_p); atomic_load_explicit(_vf_p,(mo)); })
+/* a store that is not seq_cst may stay in the (simulated) store buffer of its thread while that thread's next few atomic loads execute
+   (store -> load reordering, allowed on every supported CPU incl. x86): vf_store_delay_slow then keeps it and performs it later */
+int  vf_store_delay_slow(volatile void* addr, unsigned size, unsigned long long value, const char* func);
 #define vfa_store_explicit(p,x,mo) __extension__({ \
-  __typeof__(p) _vf_p = (p); __typeof__(x) _vf_x = (x); VF_POINT(VF_K_STORE,_vf_p); atomic_store_explicit(_vf_p,_vf_x,(mo)); })
+  __typeof__(p) _vf_p = (p); __typeof__(x) _vf_x = (x); VF_POINT(VF_K_STORE,_vf_p); \
+  if (!(__builtin_expect(vf_mode != 0, 0) && (mo) != memory_order_seq_cst && sizeof(*_vf_p) <= 8 && \
+        vf_store_delay_slow((volatile void*)_vf_p, (unsigned)sizeof(*_vf_p), (unsigned long long)(uintptr_t)_vf_x, __func__))) \
+    atomic_store_explicit(_vf_p,_vf_x,(mo)); })
 #define vfa_exchange_explicit(p,x,mo) __extension__({ \
   __typeof__(p) _vf_p = (p); __typeof__(x) _vf_x = (x); VF_POINT(VF_K_XCHG,_vf_p); atomic_exchange_explicit(_vf_p,_vf_x,(mo)); })
 #define vfa_fetch_add_explicit(p,x,mo) __extension__({ \
